@@ -90,6 +90,11 @@ def check(case):
         return violation(f"raises|{labels[1]}", f"{type(out.exc).__name__}: {out.exc} after {len(out.trials)} iterations", labels)
     res = out.result
     if res.status != SolverStatus.Optimal:
+        y0a = np.asarray(y0 if y0 is not None else [0.0], dtype=float)
+        if res.status == SolverStatus.IterationLimit and y0a.size and float(np.max(np.abs(y0a))) >= 500.0:
+            # a class of its own (known finding F25): start multipliers three orders above the data
+            labels.append("huge_start_multipliers")
+            return violation(f"slow-from-huge-start-multipliers|{labels[1]}", f"status IterationLimit after {res.iterations} iterations (budget {BUDGET_ITERS}) from start multipliers of magnitude {float(np.max(np.abs(y0a))):.0f}", labels)
         return violation(f"not-optimal|{res.status.name}|{labels[1]}", f"status {res.status.name} after {res.iterations} iterations (budget {BUDGET_ITERS}); x={np.asarray(res.x).tolist()}", labels)
     it = int(res.iterations)
     labels.append("iters:" + ("<=20" if it <= 20 else "<=100" if it <= 100 else "<=500" if it <= 500 else ">500"))
